@@ -32,11 +32,19 @@ def operandOf : BGeom → Option Operand
 def kindName : Operand → String
   | .poly _ => "PG" | .multi _ => "MPG" | .box _ _ => "B"
 
-def ratToFloat (q : Rat) : Float := Float.ofInt q.num / Float.ofNat q.den
+/-- robust conversion: numerator and denominator are shifted down together until both fit a binary64 (the crossing
+points of figures at scale 2^-400 … 2^-1022 have numerators and denominators far beyond 2^1024) -/
+def ratToFloat (q : Rat) : Float :=
+  let k := max (Nat.log2 q.num.natAbs) (Nat.log2 q.den)
+  if k ≤ 900 then Float.ofInt q.num / Float.ofNat q.den
+  else
+    let sh := k - 900
+    Float.ofInt (q.num / ((2 ^ sh : Nat) : Int)) / Float.ofNat (q.den >>> sh)
 
-def pathLen (l : Path) : Float :=
+/-- length of a path in units of `u` (the division is exact, so tiny and huge figures are measured alike) -/
+def pathLenU (u : Rat) (l : Path) : Float :=
   (pairs l).foldl (fun acc (a, b) =>
-    let dx := ratToFloat (b.x - a.x); let dy := ratToFloat (b.y - a.y)
+    let dx := ratToFloat ((b.x - a.x) / u); let dy := ratToFloat ((b.y - a.y) / u)
     acc + Float.sqrt (dx * dx + dy * dy)) 0
 
 def fabs (x : Float) : Float := if x < 0 then -x else x
@@ -96,10 +104,10 @@ def judgeClip (L : Lines) (A : Operand) (rhs : Tok) : String :=
             s!"SPEC {cls} " ++ (if got.isEmpty then "empty-result-but-the-line-enters-the-polygon" else "non-empty-result-but-the-line-does-not-enter-the-polygon")
           else
             -- length clause: total length against the oracle's inside intervals
-            let lw := (want.map pathLen).foldl (· + ·) 0
-            let lg := (got.map pathLen).foldl (· + ·) 0
-            if fabs (lw - lg) > 1e-9 * (lw + ratToFloat (extentRel s c)) then
-              s!"SPEC {cls} length-clause total-length/extent want={lw / ratToFloat (extentRel s c)} got={lg / ratToFloat (extentRel s c)} pieces want={want.length} got={got.length}"
+            let lw := (want.map (pathLenU (extentRel s c))).foldl (· + ·) 0
+            let lg := (got.map (pathLenU (extentRel s c))).foldl (· + ·) 0
+            if fabs (lw - lg) > 1e-9 * (lw + 1) then
+              s!"SPEC {cls} length-clause total-length/extent want={lw} got={lg} pieces want={want.length} got={got.length}"
             else
               -- not only the vertices: the midpoint of every returned segment lies inside or on P (exact)
               match (got.flatMap pairs).find? (fun e => !insideClosedC c (pointAt e.1 e.2 (1/2))) with
